@@ -796,6 +796,148 @@ static void check_via_reference(int ri, const std::string& only_el = "", int onl
     if (want(LabelOps::name())) via_reference_kind<LabelOps>(ri, only_k, only_l);
 }
 
+// ------------------------------------------------------------------------------------------ "via_query"
+// The element's repetition carried through the hierarchy queries with every combination of the filter and
+// apply_repetitions flags: Cell::get_polygons / get_flexpaths / get_robustpaths / get_labels and the same
+// through a Reference (2 own offsets, magnification 0.5 + x_reflection + rotation pi/2).
+//   filter: off | on with the element's own tag | on with a tag nothing carries (nothing may be returned)
+//   apply_repetitions == false: every returned element carries a repetition denoting the element's set
+//       (mapped once by the linear part on the Reference route);
+//   apply_repetitions == true: the returned elements carry no repetition and their anchor points are the
+//       original's anchor translated by the zero vector and by every non-first vector of the set (then mapped by
+//       the reference transform for each reference offset) - the copies apply_repetition has to produce.
+template <class Ops> struct Qry;
+template <> struct Qry<PolyOps> {
+    static void cell_get(const Cell& c, bool ap, bool f, Tag t, Array<Polygon*>& o) { c.get_polygons(ap, false, -1, f, t, o); }
+    static void ref_get(const Reference& r, bool ap, bool f, Tag t, Array<Polygon*>& o) { r.get_polygons(ap, false, -1, f, t, o); }
+    static Tag tag() { return make_tag(2, 3); }
+    static Vec2 anchor(const Polygon& e) { return e.point_array.count ? e.point_array[0] : Vec2{NAN, NAN}; }
+    static const char* fn() { return "get_polygons"; }
+};
+template <> struct Qry<FlexOps> {
+    static void cell_get(const Cell& c, bool ap, bool f, Tag t, Array<FlexPath*>& o) { c.get_flexpaths(ap, -1, f, t, o); }
+    static void ref_get(const Reference& r, bool ap, bool f, Tag t, Array<FlexPath*>& o) { r.get_flexpaths(ap, -1, f, t, o); }
+    static Tag tag() { return make_tag(1, 0); }  // tag of the first of the two path elements
+    static Vec2 anchor(const FlexPath& e) { return e.spine.point_array.count ? e.spine.point_array[0] : Vec2{NAN, NAN}; }
+    static const char* fn() { return "get_flexpaths"; }
+};
+template <> struct Qry<RobustOps> {
+    static void cell_get(const Cell& c, bool ap, bool f, Tag t, Array<RobustPath*>& o) { c.get_robustpaths(ap, -1, f, t, o); }
+    static void ref_get(const Reference& r, bool ap, bool f, Tag t, Array<RobustPath*>& o) { r.get_robustpaths(ap, -1, f, t, o); }
+    static Tag tag() { return make_tag(1, 0); }
+    static Vec2 anchor(const RobustPath& e) { return Vec2{e.trafo[2], e.trafo[5]}; }  // image of the path's start point (0,0)
+    static const char* fn() { return "get_robustpaths"; }
+};
+template <> struct Qry<LabelOps> {
+    static void cell_get(const Cell& c, bool ap, bool f, Tag t, Array<Label*>& o) { c.get_labels(ap, -1, f, t, o); }
+    static void ref_get(const Reference& r, bool ap, bool f, Tag t, Array<Label*>& o) { r.get_labels(ap, -1, f, t, o); }
+    static Tag tag() { return make_tag(4, 1); }
+    static Vec2 anchor(const Label& e) { return e.origin; }
+    static const char* fn() { return "get_labels"; }
+};
+template <class Ops>
+static void via_query_kind(int ri, int only_c) {
+    typedef typename Ops::T T;
+    const RepSpec& s = ALPHA[ri];
+    SpecInfo inf = info_of(s);
+    std::vector<Vec2> own = own_set(s);
+    const LinPart& L = LIN[3];
+    RepSpec rs = ref_rep_spec(0);
+    std::vector<Vec2> refoffs = own_set(rs);
+    static const char* FILT[] = {"off", "own tag", "tag nothing carries"};
+    // combos: route(2) x filter(3) x apply(2)
+    for (int c = 0; c < 12; c++) {
+        if (only_c >= 0 && c != only_c) continue;
+        int route = c / 6, filt = (c / 2) % 3, ap = c % 2;
+        Cell cell;
+        memset(&cell, 0, sizeof cell);
+        cell.name = (char*)"c11cell";
+        T* el = Ops::build(0);
+        make_rep(s, Ops::rep(*el));
+        std::string el_before = dump::repetition(Ops::rep(*el));
+        Vec2 a0 = Qry<Ops>::anchor(*el);
+        Via<Ops>::arr(cell).append(el);
+        Reference ref;
+        memset(&ref, 0, sizeof ref);
+        ref.init(&cell);
+        ref.origin = Vec2{3, -2};
+        ref.magnification = L.m;
+        ref.x_reflection = L.refl;
+        ref.rotation = L.rot;
+        make_rep(rs, ref.repetition);
+        Tag tg = filt == 2 ? make_tag(77, 77) : Qry<Ops>::tag();
+        Array<T*> out = {};
+        if (route == 0) Qry<Ops>::cell_get(cell, ap, filt != 0, tg, out);
+        else Qry<Ops>::ref_get(ref, ap, filt != 0, tg, out);
+        R->count("cases");
+        R->count("via_query_cases");
+        if (inf.card != 1 && filt != 2) R->count("nontrivial");
+        JFields tags = base_tags(s, inf);
+        tags.push_back({"element", jstr(Ops::name())});
+        tags.push_back({"route", jstr(route ? "Reference" : "Cell")});
+        tags.push_back({"filter", jstr(FILT[filt])});
+        tags.push_back({"apply_repetitions", jbool(ap)});
+        std::string fname = std::string(route ? "Reference::" : "Cell::") + Qry<Ops>::fn();
+        std::string cs = jobj({{"call", jstr(fname + fmt("(apply_repetitions=%s, filter=%s)", ap ? "true" : "false", FILT[filt]))}, {"element", jstr(Ops::name())}, {"element_repetition", spec_json(s)}, {"denoted_set", vecs_json(own)},
+                               {"reference", route ? jobj({{"origin", jstr("(3,-2)")}, {"linear_part", jstr(L.name)}, {"repetition", spec_json(rs)}}) : std::string("null")}});
+        std::string rp = fmt("sub=via_query rep=%d el=%s c=%d", ri, Ops::name(), c);
+        auto lin = [&](Vec2 v) {
+            long double co = cosl((long double)L.rot), sn = sinl((long double)L.rot), sg = L.refl ? -1 : 1;
+            long double x = L.m * v.x, y = sg * L.m * v.y;
+            return Vec2{(double)(x * co - y * sn), (double)(x * sn + y * co)};
+        };
+        // the vectors the expansion has to realise: the original plus one copy per non-first vector
+        std::vector<Vec2> expand = {Vec2{0, 0}};
+        for (size_t k = 1; k < own.size(); k++) expand.push_back(own[k]);
+        size_t ninst = route ? refoffs.size() : 1;
+        size_t expect = filt == 2 ? 0 : ninst * (ap ? expand.size() : 1);
+        if (VERBOSE) fprintf(stderr, "%s(apply=%d, filter=%s) on %s with %s: %llu returned (%zu expected)\n", fname.c_str(), ap, FILT[filt], Ops::name(), spec_json(s).c_str(), (unsigned long long)out.count, expect);
+        bool ok = true;
+        if (out.count != expect) { R->violation("via_query", "returned-count", tags, cs, fmt("%llu elements returned, expected %zu", (unsigned long long)out.count, expect), rp); ok = false; }
+        if (filt == 2) ok = false;  // nothing to inspect: only the count (0) is judged
+        if (ok && !ap) {
+            std::vector<Vec2> want;
+            double scale = 1;
+            for (auto& v : own) { Vec2 w = route ? lin(v) : v; want.push_back(w); scale = std::max(scale, std::max(fabs(w.x), fabs(w.y))); }
+            for (uint64_t i = 0; i < out.count; i++) {
+                Repetition& r = Ops::rep(*out[i]);
+                if (!storage_ok(r)) { storage_violation("via_query", ri, fname, r, rp); continue; }
+                std::vector<Vec2> got = dump::own_offsets(r);
+                if (r.type == RepetitionType::None) got.clear();
+                if (VERBOSE) fprintf(stderr, "  returned element %llu carries %s\n", (unsigned long long)i, dump::repetition(r).c_str());
+                if (!same_multiset_tol(want, got, 1e-12 * scale))
+                    R->violation("via_query", "returned-repetition", tags, cs, fmt("returned element %llu carries a repetition denoting ", (unsigned long long)i) + vecs_json(got) + "; expected " + vecs_json(want), rp);
+                else if (s.kind != 0 && r.get_count() != own.size())
+                    R->violation("via_query", "returned-repetition-count", tags, cs, fmt("get_count() of the returned repetition = %llu, the element's repetition denotes %zu vectors", (unsigned long long)r.get_count(), own.size()), rp);
+            }
+        }
+        if (ok && ap) {
+            std::vector<Vec2> want, got;
+            double scale = 1;
+            for (size_t q = 0; q < ninst; q++)
+                for (auto& v : expand) {
+                    Vec2 pt = Vec2{a0.x + v.x, a0.y + v.y};
+                    if (route) { pt = lin(pt); pt.x += 3 + refoffs[q].x; pt.y += -2 + refoffs[q].y; }
+                    want.push_back(pt);
+                    scale = std::max(scale, std::max(fabs(pt.x), fabs(pt.y)));
+                }
+            bool reps = false;
+            for (uint64_t i = 0; i < out.count; i++) { got.push_back(Qry<Ops>::anchor(*out[i])); if (Ops::rep(*out[i]).type != RepetitionType::None) reps = true; }
+            if (reps) R->violation("via_query", "expanded-keeps-repetition", tags, cs, "an element returned with apply_repetitions=true still carries a repetition", rp);
+            if (!same_multiset_tol(want, got, 1e-9 * scale))
+                R->violation("via_query", "expanded-positions", tags, cs, "anchor points of the returned elements " + vecs_json(got) + " are not the original's anchor translated by the zero vector and every non-first vector of the set: " + vecs_json(want), rp);
+        }
+        if (dump::repetition(Ops::rep(*el)) != el_before) R->violation("via_query", "source-element-changed", tags, cs, "the repetition of the element inside the cell changed: " + dump::repetition(Ops::rep(*el)), rp);
+        for (uint64_t i = 0; i < out.count && i < 100000; i++) Ops::destroy(out[i]);
+        out.clear();
+        ref.repetition.clear();
+        Via<Ops>::arr(cell).clear();
+        Ops::destroy(el);
+    }
+}
+// zero-count lattices go through apply_repetition inside the queries: isolated like the apply cases
+static void check_via_query(int ri, const std::string& only_el = "", int only_c = -1);
+
 static const char* COPIED_NAME[] = {"direct", "copy_from (source destroyed)", "copy of a copy (intermediate destroyed, source kept)"};
 // run f in a forked child; "" if it returned normally, else what happened (+ its stderr in err)
 static std::string isolated(const std::function<void()>& f, std::string& err) {
@@ -836,6 +978,22 @@ static std::string isolated(const std::function<void()>& f, std::string& err) {
     return fmt("exit status %d", WEXITSTATUS(status));
 }
 
+static void check_via_query(int ri, const std::string& only_el, int only_c) {
+    auto want = [&](const char* n) { return only_el.empty() || only_el == n; };
+    auto all = [&] {
+        if (want(PolyOps::name())) via_query_kind<PolyOps>(ri, only_c);
+        if (want(FlexOps::name())) via_query_kind<FlexOps>(ri, only_c);
+        if (want(RobustOps::name())) via_query_kind<RobustOps>(ri, only_c);
+        if (want(LabelOps::name())) via_query_kind<LabelOps>(ri, only_c);
+    };
+    if (!info_of(ALPHA[ri]).zero_count) { all(); return; }
+    std::string err;
+    std::string what = isolated(all, err);
+    if (!what.empty()) {
+        JFields tags = base_tags(ALPHA[ri], info_of(ALPHA[ri]));
+        R->violation("via_query", "crash", tags, jobj({{"repetition", spec_json(ALPHA[ri])}, {"calls", jstr("Cell::get_* / Reference::get_* on an element with a zero-count lattice")}}), "the queries ended abnormally: " + what + "\n" + err, fmt("sub=via_query rep=%d", ri));
+    }
+}
 // copied: 0 = apply on the element the repetition was set on; 1 = on an Ops::T::copy_from copy of it, the source
 // destroyed first; 2 = on a copy of a copy, the intermediate copy destroyed, the source kept and compared
 template <class Ops>
@@ -1136,7 +1294,8 @@ int main(int argc, char** argv) {
         else if (sub == "transform") check_transform(ri, run.rarg("t").empty() ? -1 : atoi(run.rarg("t").c_str()), run.rarg("cp") == "1");
         else if (sub == "apply") apply_all(ri, run.rarg("el"), run.rarg("prefill").empty() ? -1 : atoi(run.rarg("prefill").c_str()), run.rarg("var").empty() ? -1 : atoi(run.rarg("var").c_str()), run.rarg("cp").empty() ? -1 : atoi(run.rarg("cp").c_str()));
         else if (sub == "via_reference") check_via_reference(ri, run.rarg("el"), run.rarg("k").empty() ? -1 : atoi(run.rarg("k").c_str()), run.rarg("l").empty() ? -1 : atoi(run.rarg("l").c_str()));
-        else { check_set(ri); check_transform(ri, -1); check_transform(ri, -1, true); check_via_reference(ri); apply_all(ri, "", -1); }
+        else if (sub == "via_query") check_via_query(ri, run.rarg("el"), run.rarg("c").empty() ? -1 : atoi(run.rarg("c").c_str()));
+        else { check_set(ri); check_transform(ri, -1); check_transform(ri, -1, true); check_via_reference(ri); check_via_query(ri); apply_all(ri, "", -1); }
         return run.finish();
     }
     run.note("alphabet: " + alphabet_desc(T) + fmt(" (%zu repetitions)", ALPHA.size()));
@@ -1153,6 +1312,7 @@ int main(int argc, char** argv) {
         check_transform((int)i, -1);
         check_transform((int)i, -1, true);
         check_via_reference((int)i);
+        check_via_query((int)i);
         apply_all((int)i, "", -1);
     };
     bool ok = parallel_for(run, n, body, [&](int64_t i) { return jobj({{"repetition", spec_json(ALPHA[i])}}); }, [&](int64_t i) { return fmt("sub=all rep=%lld", (long long)i); }, PFOptions{120, "enum", true});
@@ -1162,7 +1322,7 @@ int main(int argc, char** argv) {
     note_bezier_ctrl_sharing();
     run.bound("enum", "every repetition of the alphabet {" + alphabet_desc(T) + "} x {get_count, get_offsets, get_extrema (result empty / pre-filled)} judged on 9 derivations of the repetition (direct; Repetition::copy_from copy; copy of a copy; source after its copies were cleared; "
               "repetition of a polygon / flexpath / robustpath / label / reference copied with copy_from, source destroyed) x 18 transforms (direct and on a copy whose source was cleared) x apply_repetition on 6 element kinds: fresh and after every transform history of its "
-              "list (18 element states), fresh ones also with the result array already holding the element, and fresh ones copied first (copy_from with the source destroyed; copy of a copy with the source kept and compared); plus 'via_reference': the repetition of a polygon / flexpath / robustpath / label inside a cell, read back from every instance of Reference::get_polygons / get_flexpaths / get_robustpaths / get_labels(apply_repetitions=false) for references with 2, 3 and 4 own offsets x {rotation 0.6, magnification 2, x_reflection, all three}", ok,
-              n * (9 + 36 + 48 + (int64_t)APPLY.size() + 6));
+              "list (18 element states), fresh ones also with the result array already holding the element, and fresh ones copied first (copy_from with the source destroyed; copy of a copy with the source kept and compared); plus 'via_reference': the repetition of a polygon / flexpath / robustpath / label inside a cell, read back from every instance of Reference::get_polygons / get_flexpaths / get_robustpaths / get_labels(apply_repetitions=false) for references with 2, 3 and 4 own offsets x {rotation 0.6, magnification 2, x_reflection, all three}; plus 'via_query': Cell::get_* and Reference::get_* for the four element kinds x filter {off, own tag, tag nothing carries} x apply_repetitions {false: returned repetition denotes the set (mapped once on the Reference route); true: returned anchor points = original translated by the zero vector and every non-first vector}", ok,
+              n * (9 + 36 + 48 + 48 + (int64_t)APPLY.size() + 6));
     return run.finish();
 }
